@@ -29,7 +29,7 @@ PROP = {
                 "moved to the other endpoint, scripts of writes/reads with sizes around the chunk size (0, 1, cs-1, cs, cs+1, 2cs), "
                 "flushes, deliveries, and an ending drawn from normal / short (fixed size above the payload; unsized dropped without "
                 "shutdown) / dropped early / over-long (fixed size below the payload) / connection cut; every 8th case is the "
-                "oracle-only 'remote:' stream with receive buffers 64..1024 and an auto-delivering link; a case is non-trivial "
+                "oracle-only 'remote:' stream with receive buffers 64..1024 and an auto-delivering link, in which the sender, already used, is flushed and moved on to the other endpoint up to twice (its byte count must travel with it); a case is non-trivial "
                 "unless its signature shows no feature beyond mode and placement; distinct = distinct input",
         "assumptions": [
             "io halves are moved once, before the first read/write (wiring is C05)",
